@@ -2512,12 +2512,10 @@ impl Server {
                                 return Ok(RespFrame::error("ERR syntax error"));
                             }
                             if let RespFrame::BulkString(Some(seconds_bytes)) = &parts[i + 1] {
-                                if let Ok(seconds_str) = String::from_utf8(seconds_bytes.as_ref().clone()) {
-                                    if let Ok(seconds) = seconds_str.parse::<u64>() {
-                                        expiration = Some(Duration::from_secs(seconds));
-                                        i += 2;
-                                        continue;
-                                    }
+                                if let Some(expires_in) = crate::storage::commands::strings::parse_expire_time(seconds_bytes, 1000) {
+                                    expiration = Some(expires_in);
+                                    i += 2;
+                                    continue;
                                 }
                             }
                             return Ok(RespFrame::error("ERR invalid expire time"));
@@ -2527,12 +2525,10 @@ impl Server {
                                 return Ok(RespFrame::error("ERR syntax error"));
                             }
                             if let RespFrame::BulkString(Some(millis_bytes)) = &parts[i + 1] {
-                                if let Ok(millis_str) = String::from_utf8(millis_bytes.as_ref().clone()) {
-                                    if let Ok(millis) = millis_str.parse::<u64>() {
-                                        expiration = Some(Duration::from_millis(millis));
-                                        i += 2;
-                                        continue;
-                                    }
+                                if let Some(expires_in) = crate::storage::commands::strings::parse_expire_time(millis_bytes, 1) {
+                                    expiration = Some(expires_in);
+                                    i += 2;
+                                    continue;
                                 }
                             }
                             return Ok(RespFrame::error("ERR invalid expire time"));
@@ -2785,6 +2781,10 @@ impl Server {
             let deleted = self.storage.delete(db, key)?;
             Ok(RespFrame::Integer(if deleted { 1 } else { 0 }))
         } else {
+            // The deadline is kept on a 64-bit millisecond clock
+            if seconds.checked_mul(1000).is_none() {
+                return Ok(RespFrame::error("ERR invalid expire time in 'expire' command"));
+            }
             let result = self.storage.expire(db, key, Duration::from_secs(seconds as u64))?;
             Ok(RespFrame::Integer(if result { 1 } else { 0 }))
         }
@@ -2935,11 +2935,11 @@ impl Server {
             _ => return Ok(RespFrame::error("ERR invalid key format")),
         };
         
-        let seconds = match &parts[2] {
+        let expires_in = match &parts[2] {
             RespFrame::BulkString(Some(bytes)) => {
-                match String::from_utf8_lossy(bytes).parse::<u64>() {
-                    Ok(n) => n,
-                    Err(_) => return Ok(RespFrame::error("ERR value is not an integer or out of range")),
+                match crate::storage::commands::strings::parse_expire_time(bytes, 1000) {
+                    Some(d) => d,
+                    None => return Ok(RespFrame::error("ERR invalid expire time in 'setex' command")),
                 }
             }
             _ => return Ok(RespFrame::error("ERR invalid expiration format")),
@@ -2950,7 +2950,7 @@ impl Server {
             _ => return Ok(RespFrame::error("ERR invalid value format")),
         };
         
-        self.storage.set_string_ex(db, key, value, std::time::Duration::from_secs(seconds))?;
+        self.storage.set_string_ex(db, key, value, expires_in)?;
         Ok(RespFrame::ok())
     }
     
@@ -2965,11 +2965,11 @@ impl Server {
             _ => return Ok(RespFrame::error("ERR invalid key format")),
         };
         
-        let millis = match &parts[2] {
+        let expires_in = match &parts[2] {
             RespFrame::BulkString(Some(bytes)) => {
-                match String::from_utf8_lossy(bytes).parse::<u64>() {
-                    Ok(n) => n,
-                    Err(_) => return Ok(RespFrame::error("ERR value is not an integer or out of range")),
+                match crate::storage::commands::strings::parse_expire_time(bytes, 1) {
+                    Some(d) => d,
+                    None => return Ok(RespFrame::error("ERR invalid expire time in 'psetex' command")),
                 }
             }
             _ => return Ok(RespFrame::error("ERR invalid expiration format")),
@@ -2980,7 +2980,7 @@ impl Server {
             _ => return Ok(RespFrame::error("ERR invalid value format")),
         };
         
-        self.storage.set_string_ex(db, key, value, std::time::Duration::from_millis(millis))?;
+        self.storage.set_string_ex(db, key, value, expires_in)?;
         Ok(RespFrame::ok())
     }
     
